@@ -555,6 +555,7 @@ func checkMsg(c *vm.Ctx, m chat.Message, feats map[string]bool, i int) {
 		return map[string]any{"component_json": desc}
 	}
 	c.Eval(vm.Hash64(js), len(js) > 20)
+	keep := snapshot(m)
 
 	// --- JSON
 	var viaJSON chat.Message
@@ -577,6 +578,7 @@ func checkMsg(c *vm.Ctx, m chat.Message, feats map[string]bool, i int) {
 		}
 	}
 	checkJSONView(c, m, js, wit)
+	stillAsBefore(c, "json-encode", keep, m, wit)
 	// JsonMessage as a packet field
 	var jm chat.JsonMessage
 	var buf bytes.Buffer
@@ -610,6 +612,12 @@ func checkMsg(c *vm.Ctx, m chat.Message, feats map[string]bool, i int) {
 			return map[string]any{"component_json": desc, "note": note, "nbt_hex": vm.Hex(nb.Bytes())}
 		}
 		return map[string]any{"component_json": desc, "nbt_hex": vm.Hex(nb.Bytes())}
+	}
+	if !stillAsBefore(c, "nbt-encode", keep, m, w2) {
+		return
+	}
+	if !c.Guard("render-after-encode", w2, func() { _, _ = m.ClearString(), m.String() }) {
+		stillAsBefore(c, "render", keep, m, w2)
 	}
 	if wn != int64(nb.Len()) {
 		c.Violation("nbt/write-count", fmt.Sprintf("WriteTo returned %d, produced %d bytes", wn, nb.Len()), w2())
@@ -728,9 +736,13 @@ func checkMixedNBT(c *vm.Ctx, r *vm.Rand) {
 	}
 	js, _ := json.Marshal(m)
 	wit := func() any { return map[string]any{"component_json": short(string(js))} }
+	keep := snapshot(m)
 	var buf bytes.Buffer
 	var err error
 	if c.Guard("nbt/mixed-write", wit, func() { _, err = m.WriteTo(&buf) }) {
+		return
+	}
+	if !stillAsBefore(c, "nbt-encode", keep, m, wit) {
 		return
 	}
 	c.Eval(vm.Hash64(js, []byte("mixed-nbt")), true)
